@@ -366,6 +366,8 @@ func runC07(c *eng.Ctx) {
 	c.Rule("OWNER", "replica{SetAckIndex}", func() { setAckIndexOwner(c) })
 
 	// ---- 9. every chain that reaches a data flush establishes meta -> index -> data ---------------------------------------------
+	// F42: the identity under which a memory database files its slot ranges in the shard-level index
+	c.Rule("PROV", "tsdb/memdb.memoryDatabase.createdTime{unique per memory database}", func() { memdbIdentityUnique(c) })
 	c.Rule("ORDER", "index.metricMetaDatabase.Flush{counters<dictionaries}", func() { metaFlushCountersFirst(c) })
 	c.Rule("ORDER", midT+".Flush{postings<series-dictionary}", func() { indexFlushSeriesLast(c) })
 	c.Rule("ORDER", dfT+".WriteRows{acquire<write<complete} / FlushFamilyTo{wait}", func() { writeBracketRule(c) })
@@ -678,4 +680,85 @@ func groupEmptyMeansAcknowledged(c *eng.Ctx) {
 		}
 		c.Check(eng.DominatedBy(ie, r, []eng.Site{names}, nil), fmt.Sprintf("expired-only-after-asking[%d]", i), r, ie, "a partition is reported expired only after its consumer groups were examined", "")
 	}
+}
+
+// memdbIdentityUnique (F42, shared by C07 and C11): every memory database of a shard files the slot range of a metric under the key
+// md.createdTime in the shard-level time series index, and Cleanup after a flush deletes the entry under that key. Two memory
+// databases with one key lose each other's range: the rows of the second become invisible and its flush acknowledges them
+// without writing them. A clock value (fasttime has a 5 ms tick) is not unique; the key must come out of an atomic
+// read-modify-write (counter, or a CAS loop that forces the clock value to be strictly increasing).
+func memdbIdentityUnique(c *eng.Ctx) {
+	p := c.P
+	const fld = "tsdb/memdb.memoryDatabase.createdTime"
+	isRMW := func(in ssa.Instruction) bool {
+		fa, m, _ := eng.AtomicOp(in)
+		if fa == nil && m == "" {
+			// package-level atomic variable
+			if cl, ok := in.(*ssa.Call); ok {
+				if g := cl.Common().StaticCallee(); g != nil && g.Pkg != nil && (strings.HasSuffix(g.Pkg.Pkg.Path(), "sync/atomic") || strings.HasSuffix(g.Pkg.Pkg.Path(), "go.uber.org/atomic")) {
+					m = g.Name()
+				}
+			}
+		}
+		switch m {
+		case "Add", "Inc", "CompareAndSwap", "CAS", "Swap", "AddInt64", "CompareAndSwapInt64", "AddUint64":
+			return true
+		}
+		return false
+	}
+	var hasRMW func(g *ssa.Function, depth int) bool
+	hasRMW = func(g *ssa.Function, depth int) bool {
+		if g == nil || g.Blocks == nil || depth > 2 {
+			return false
+		}
+		for _, b := range g.Blocks {
+			for _, in := range b.Instrs {
+				if isRMW(in) {
+					return true
+				}
+				if cl, ok := in.(*ssa.Call); ok {
+					if h := cl.Common().StaticCallee(); h != nil && eng.InModule(h) && hasRMW(h, depth+1) {
+						return true
+					}
+				}
+			}
+		}
+		return false
+	}
+	n := 0
+	for _, fn := range p.FuncsWithPrefix("tsdb/memdb.") {
+		for _, s := range p.SitesDirect(fn, eng.StoreField(fld)) {
+			n++
+			v := s.Instr.(*ssa.Store).Val
+			unique := eng.DependsOn(v, func(x ssa.Value) bool {
+				in, ok := x.(ssa.Instruction)
+				if !ok {
+					return false
+				}
+				if isRMW(in) {
+					return true
+				}
+				if cl, ok := x.(*ssa.Call); ok {
+					if g := cl.Common().StaticCallee(); g != nil && eng.InModule(g) {
+						return hasRMW(g, 0)
+					}
+				}
+				return false
+			})
+			c.Check(unique, fmt.Sprintf("key-from-an-atomic-update[%d]", n), s.Instr, fn,
+				"the key of a memory database in the shard-level index is produced by an atomic read-modify-write (a counter, or a CAS loop that makes the clock value strictly increasing): two databases never share it",
+				"the key is "+p.Desc(v)+": a clock reading, equal for every database created within one tick")
+		}
+	}
+	c.Check(n >= 1, "key-assigned", nil, nil, "NewMemoryDatabase assigns createdTime", fmt.Sprintf("%d stores", n))
+	// and it IS the key: ranges are stored and read under it
+	used := 0
+	for _, fn := range p.FuncsWithPrefix("tsdb/memdb.memoryDatabase.") {
+		for _, s := range p.SitesDirect(fn, invokeOn("", "StoreTimeRange", "GetTimeRange")) {
+			if eng.DependsOnField(eng.CallArgs(s.Instr.(ssa.CallInstruction))[0], fld) {
+				used++
+			}
+		}
+	}
+	c.Check(used >= 2, "key-used", nil, nil, "the slot range of a metric is stored and read under md.createdTime", fmt.Sprintf("%d sites", used))
 }
